@@ -460,10 +460,13 @@ class Interp:
                 b = b[1].v
             if is_int(a) and is_int(b):
                 return Bool((a[1] == b[1]) == (name == "eq"))
+            if a[0] == "adt" and b[0] == "adt" and a[1] == b[1] and a[2] is not None and b[2] is not None and not a[3] and not b[3] \
+                    and a[1] in self.prog.adts and self.prog.adts[a[1]]["is_enum"] and \
+                    all(not v["fields"] for v in self.prog.adts[a[1]]["variants"]):
+                # PartialEq on a field-less enum (derived): discriminant equality
+                return Bool((a[2] == b[2]) == (name == "eq"))
             callee = self.prog.fns.get(key)
             if callee is None:
-                if a[0] == "adt" and b[0] == "adt" and a[2] is not None and b[2] is not None and not a[3] and not b[3]:
-                    return Bool((a[2] == b[2]) == (name == "eq"))
                 return TOP
         if name in ("clone",) and args and args[0][0] == "ref":
             return clone(args[0][1].v)
